@@ -696,6 +696,85 @@ class Ledger:
                     out.append((("bin", "Le" if incl else "Lt", x, hi), 1))
         return out
 
+    def _index_below_len(self, fn, site):
+        """`v[i]` / `v.remove(i)` under the true edge of `i < v.len()`: between the test and the use nothing assigns `i`, and nothing
+        borrows `v` (or the object it lives in) mutably or assigns through it"""
+        t = fn.term(site.bb)
+        args = t.get("args", [])
+        if len(args) != 2:
+            return None
+        ie = kit.strip_refs(fn.expr(args[1], 3, stop={"named"}))
+        if ie[0] not in ("local", "arg"):
+            return None
+        vplace = kit.strip_refs(fn.expr(args[0], 6, stop={"named"}))
+        root = vplace
+        while root[0] in ("field", "deref", "ref"):
+            root = root[1]
+        if root[0] not in ("local", "arg"):
+            return None
+        dom = fn.dominators()
+        succ = fn.succ_map()
+        for d in sorted(dom.get(site.bb, ())):
+            if d == site.bb:
+                continue
+            sw = fn.term(d)
+            if sw["k"] != "switch":
+                continue
+            cond = fn.expr(sw["a"], 8, stop={"named"})
+            if cond[0] != "bin" or cond[1] not in ("Lt", "Gt", "Ge", "Le"):
+                continue
+            toward = [s for s in succ[d] if s == site.bb or fn.dominates(s, site.bb)]
+            if len(toward) != 1:
+                continue
+            tgt = toward[0]
+            allv = [v for v, x in sw["targets"]]
+            vals = [v for v, x in sw["targets"] if x == tgt]
+            if tgt == sw["otherwise"] and not vals and allv == [0]:
+                op = cond[1]
+            elif vals == [0] and tgt != sw["otherwise"]:
+                op = {"Lt": "Ge", "Le": "Gt", "Gt": "Le", "Ge": "Lt"}[cond[1]]
+            else:
+                continue
+            a, b = cond[2], cond[3]
+            if op == "Gt":
+                a, b, op = b, a, "Lt"
+            if op != "Lt" or not _same(a, ie) or _canon(b) != ("len", vplace):
+                continue
+            fwd = set()
+            for sx in succ[d]:
+                if sx != d:
+                    fwd |= fn.reachable(sx, avoid={d, site.bb}) | ({sx} if sx == site.bb else set())
+            between = (fwd & _reaching(fn, site.bb, avoid={d})) | {site.bb}
+            between.discard(d)
+            bad = None
+            for b_ in sorted(between):
+                for s in fn.stmts(b_):
+                    if s["k"] != "assign":
+                        continue
+                    if s["p"]["l"] == ie[1] and place_is_local(s["p"]):
+                        bad = "the index is assigned"
+                    if b_ != site.bb and s["p"]["l"] == root[1] and s["p"].get("pr"):
+                        bad = "the collection's owner is written"
+                    if b_ != site.bb and s["r"]["k"] in ("ref", "rawptr") and str(s["r"].get("bk", "")).lower().startswith("mut") and s["r"]["p"]["l"] == root[1]:
+                        bad = "the collection's owner is borrowed mutably"
+                if b_ == site.bb:
+                    continue
+                tt = fn.term(b_)
+                if tt["k"] == "call":
+                    dl = tt.get("dest")
+                    if isinstance(dl, dict) and dl.get("l") == ie[1] and not dl.get("pr"):
+                        bad = "the index is assigned"
+                    for a_, ty in zip(tt["args"], tt.get("arg_tys", [])):
+                        if ty.startswith("&mut") and op_local(a_) is not None:
+                            l_ = op_local(a_)
+                            if l_ == root[1]:
+                                bad = "the collection's owner is passed on mutably"
+                elif tt["k"] not in ("goto", "switch", "assert", "return", "unreachable", "drop"):
+                    bad = "an unrecognised terminator lies between"
+            if bad is None:
+                return "guarded: dominated by `%s` on the edge towards the use; neither the index nor the collection changes in between" % expr_str(cond, 80)
+        return None
+
     def _stable_between(self, fn, guard_bb, site_bb, cond):
         """the places a guard talks about are not written between the guard and the site: no assignment to a field the
         condition reads, and no call that receives `&mut` of the whole object those fields live in"""
@@ -1017,6 +1096,11 @@ class Ledger:
                 d1, d2 = lenform(fn.expr(raw_args[0], 16)), lenform(fn.expr(raw_args[1], 16))
                 if d1 is not None and d1 == d2:
                     return "guarded: destination and source lengths are the same linear form over slice lengths"
+        if site.kind == "index" and re.search(r"Vec<T, A> as core::ops::index::Index(Mut)?<I>>::index(_mut)?$|Vec::<T, A>::(remove|swap_remove)$", str(site.extra.get("callee", ""))):
+            # v[i] / v.remove(i) dominated by the true edge of `i < v.len()`, with neither i nor v written between the test and the use
+            r_ = self._index_below_len(fn, site)
+            if r_:
+                return r_
         if site.kind == "index" and len(site.operands) >= 2:
             # v[i] where i is the Some-payload of v.iter().position(..): position only returns indices of existing elements
             base = kit.strip_refs(_deref_target(site.operands[0]))
